@@ -247,19 +247,53 @@ fn walk(schema: &Schema, s: &StructNode, path: &mut Vec<String>, weak: bool, out
     }
 }
 
+fn count_nodes(n: &Node) -> usize {
+    1 + match &n.payload {
+        Payload::Struct(s) => s.positional.iter().map(count_nodes).sum::<usize>() + s.groups.iter().flat_map(|g| g.elems.iter()).map(count_nodes).sum::<usize>(),
+        Payload::Leaf(_) => 0,
+    }
+}
+
+/// Apply `f` to the `idx`-th node of the tree in depth-first order.
+fn with_node_mut(n: &mut Node, idx: &mut usize, f: &mut dyn FnMut(&mut Node)) -> bool {
+    if *idx == 0 {
+        f(n);
+        return true;
+    }
+    *idx -= 1;
+    if let Payload::Struct(s) = &mut n.payload {
+        for c in s.positional.iter_mut() {
+            if with_node_mut(c, idx, f) {
+                return true;
+            }
+        }
+        for g in s.groups.iter_mut() {
+            for c in g.elems.iter_mut() {
+                if with_node_mut(c, idx, f) {
+                    return true;
+                }
+            }
+        }
+    }
+    false
+}
+
 fn foreign_elem(rng: &mut Rng, known: &BTreeSet<u16>) -> (u16, Node) {
     let tag = loop {
-        let t: u16 = match rng.below(3) {
+        let t: u16 = match rng.below(4) {
             0 => rng.range(1, 0xfe) as u16,
             1 => 0x1f00 | rng.below(256) as u16,
-            _ => 0xff00 | rng.below(256) as u16,
+            2 => 0xff00 | rng.below(256) as u16,
+            // the ends of the one-byte range (00 is the "filler" of some TLV dialects)
+            _ => *rng.pick(&[0x00u16, 0x00, 0x01, 0x7f, 0x80, 0xfe]),
         };
         if t != 0x1f && t != 0xff && !known.contains(&t) {
             break t;
         }
     };
     let n = rng.below(6) as usize;
-    let body = rng.bytes(n);
+    // a body of zero bytes re-synchronises a decoder that skips instead of stopping
+    let body = if rng.chance(1, 3) { vec![0u8; n] } else { rng.bytes(n) };
     (
         tag,
         Node {
@@ -929,6 +963,41 @@ pub fn run_types(threads_max: usize, seed: u64, report: &mut Report, schema: &Sc
                                     let i = rng.below(bad.len() as u64) as usize;
                                     bad[i] = 0x99;
                                     bad.push(0x99);
+                                }
+                            }
+                            // half of the time: a failure deep inside, all enclosing lengths consistent (one inner element
+                            // announces more than it has, or one group occurs twice), so that the decoder has already
+                            // accepted earlier fields when it gives up
+                            if rng.chance(1, 2) {
+                                let mut t = tree.clone();
+                                let total = count_nodes(&t);
+                                if total > 1 {
+                                    let mut idx = 1 + rng.below(total as u64 - 1) as usize;
+                                    let k = 1 + rng.below(9) as usize;
+                                    let dup = rng.chance(1, 3);
+                                    with_node_mut(&mut t, &mut idx, &mut |n: &mut Node| {
+                                        if dup {
+                                            if let Payload::Struct(s) = &mut n.payload {
+                                                if let Some(g) = s.groups.last().cloned() {
+                                                    s.groups.push(g);
+                                                    return;
+                                                }
+                                            }
+                                        }
+                                        let plen = match &n.payload {
+                                            Payload::Leaf(b) => b.len(),
+                                            Payload::Struct(s) => s.bytes().map(|b| b.len()).unwrap_or(0),
+                                        };
+                                        n.prefix_override = match n.len {
+                                            Len::Ber => crate::codec::ber_len(plen + k),
+                                            Len::Ll => crate::codec::llvar((plen + k).min(99), 2),
+                                            Len::Lll => crate::codec::llvar((plen + k).min(999), 3),
+                                            _ => None,
+                                        };
+                                    });
+                                    if let Some(bb) = t.bytes() {
+                                        bad = bb;
+                                    }
                                 }
                             }
                             let _ = sut.decode(&def.key, &bad);
